@@ -1889,7 +1889,7 @@ def unoption_or_chain(f):
     return f
 
 
-def pull_pure_type_helpers(u, relpath, type_name, known=()):
+def pull_pure_type_helpers(u, relpath, type_name, known=(), rewrites=()):
     """R14: the methods of the inherent `impl TYPE { .. }` blocks of `relpath` that the unit does not know (`known`) and whose bodies are pure
     (no loop, no `&mut`, no `?`): each is emitted TWICE from the same text -- as `open spec fn NAME_spec` and as the executable `fn NAME` with the
     mechanically derived strongest postcondition `ret == NAME_spec(args)` -- so that a key / accessor helper introduced next to a function under contract
@@ -1912,14 +1912,24 @@ def pull_pure_type_helpers(u, relpath, type_name, known=()):
             f = u.extract(relpath, r'impl\s+' + re.escape(type_name) + r'\s*\{?$|impl ' + re.escape(type_name) + r'\b(?!.*\bfor\b)', nm, f'{type_name}::{nm}[pure helper, derived postcondition]')
         except ExtractError:
             continue
-        if re.search(r'\b(for|while|loop)\b|&mut\b|\?', f.body):
+        for pat_, repl_ in rewrites:
+            f.rewrite_re('R11', pat_, repl_, where='sig', min_count=0)
+            f.rewrite_re('R11', pat_, repl_, min_count=0)
+        f.rewrite_re('R12', r'pub\(super\)\s*', '', where='sig', min_count=0)
+        unlet_else_return(f)
+        if re.search(r'\b(for|while|loop|return)\b|&mut\b|\?', f.body):
             continue
         sig = re.sub(r'^(pub(\([a-z]+\))?\s+)?(const\s+)?', '', f.sig.strip())
         sig = re.sub(r'\bSelf\b', type_name, sig)
         body = re.sub(r'\bSelf\b', type_name, f.body)
-        mp = re.match(r'fn\s+(\w+)\s*\((.*)\)\s*->\s*(.+)$', sig, flags=re.S)
-        if not mp:
+        mg = re.match(r'fn\s+(\w+)\s*(<[^>()]*>)?\s*\((.*)\)\s*->\s*(.+)$', sig, flags=re.S)
+        if not mg:
             continue
+        gen_ = mg.group(2) or ''
+        class _M:  # (name, params, ret) view of the match
+            def __init__(s_, g): s_.g = g
+            def group(s_, i): return (s_.g.group(1), s_.g.group(3), s_.g.group(4))[i - 1]
+        mp = _M(mg)
         params = [p.strip() for p in _split_top_commas(mp.group(2)) if p.strip()]
         args = []
         for p in params:
@@ -1930,7 +1940,7 @@ def pull_pure_type_helpers(u, relpath, type_name, known=()):
         f.sig, f.body = sig, body
         f.rewrites.append(('R14', f'the same text is also emitted as `open spec fn {nm}_spec`; the executable function gets the postcondition ret == {nm}_spec(..)', 'pure helper: no loop, no &mut, no ?'))
         f.ensures('is_its_own_body_read_as_a_specification', f'ret == {recv}{nm}_spec({", ".join(args)})')
-        spec = f'pub open spec fn {nm}_spec({mp.group(2)}) -> {mp.group(3)}\n{body}'
+        spec = f'pub open spec fn {nm}_spec{gen_}({mp.group(2)}) -> {mp.group(3)}\n{f.body}'
         out.append(spec + '\n' + f.render('pub'))
     if not out:
         return ''
@@ -2008,4 +2018,27 @@ def uncollect_option_vec(f):
         n += 1
     if n:
         f.rewrites.append(('R5', f'{n}x `let X: Option<Vec<T>> = s.iter().map(|&c| BODY).collect();` -> index loop with early exit (BODY verbatim)', ''))
+    return f
+
+
+def unlet_else_return(f):
+    """R3: a top-level `let PAT = EXPR else { return R; };` followed by the rest of the function body -> `match EXPR { PAT => { REST }, _ => { R } }` (PAT, EXPR, R, REST verbatim)"""
+    n = 0
+    while True:
+        inner = f.body.strip()[1:-1]
+        stmts = _split_stmts(inner)
+        hit = None
+        for k, st in enumerate(stmts):
+            m = re.match(r'\s*let\s+(.+?)\s*=\s*([^=;{}]+?)\s+else\s*\{\s*return\s+(.*?);?\s*\}\s*;\s*$', st, flags=re.S)
+            if m:
+                hit = (k, m)
+                break
+        if not hit:
+            break
+        k, m = hit
+        rest = ''.join(stmts[k + 1:]).strip()
+        f.body = '{' + ''.join(stmts[:k]) + f'\nmatch {m.group(2)} {{ {m.group(1)} => {{ {rest} }}, _ => {{ {m.group(3)} }} }}\n}}'
+        n += 1
+    if n:
+        f.rewrites.append(('R3', f'{n}x top-level `let PAT = E else {{ return R; }};` + rest -> `match E {{ PAT => {{ rest }}, _ => R }}`', ''))
     return f
